@@ -426,8 +426,21 @@ def gen_case(rng: random.Random, P: Dict[str, Any]) -> Case:
     return case
 
 
+#: optional hook called at the start of every harness-built callback of a built-in action
+#: (assign value, pure getter, enqueueActions callback, log expression); C07 makes it raise.
+CALLBACK_HOOK = {"fn": None}
+
+
+def _cb(kind):
+    fn = CALLBACK_HOOK["fn"]
+    if fn is not None:
+        fn(kind)
+
+
 def _rand_effect(rng, case, tag):
     r = rng.random()
+    if case.profile.get("p_neutral_fx") and rng.random() < case.profile["p_neutral_fx"]:
+        return rng.choice([{"$": "emit", "ev": rng.choice(["X", "Y"])}, {"$": "logcb"}])
     if r < 0.3:
         return {"$": "inc", "key": "n"}
     if r < 0.45:
@@ -543,6 +556,13 @@ def materialize(plan: Any) -> Any:
 
 def _mat_effect(e: Dict[str, Any]) -> Dict[str, Any]:
     k = e["$"]
+    if k == "emit":
+        return {"type": "xstate.emit", "params": {"event": {"type": e["ev"], "emitted": True}}}
+    if k == "logcb":
+        def expr(a):
+            _cb("log")
+            return "x"
+        return {"type": "xstate.log", "params": {"expr": expr}}
     if k == "inc":
         key = e["key"]
         return {"type": "xstate.assign", "params": {"assignment": {
